@@ -7,6 +7,7 @@ import MaestroVerif.Lemmas.ExpandInv
 import MaestroVerif.Lemmas.ExpandNodes
 import MaestroVerif.Lemmas.ExpandGate
 import MaestroVerif.Lemmas.ExpandComplete
+import MaestroVerif.Lemmas.ExpandAll
 
 /-!
 # C08 — Parameter expansion creates exactly the right instances and edges
@@ -543,5 +544,29 @@ example : (match stageSS demoSpec id with
         && sf.g.insts.map (·.name) == ["pre".toList, "run_SIZE.10".toList, "run_SIZE.20".toList, "post".toList]
     | .error _ => false) = true := by decide +kernel
 
+
+/-- **every step of the specification is staged** (`Lemmas/ExpandAll.lean`): the flow that
+`Study.add_step` builds is a well-formed acyclic graph that holds every step name, `topological_sort`
+lists every node of such a graph (C14), and the staging loop files every name it visits - so when
+staging succeeds every step of the specification (none being called `_source`, which the validator
+refuses) is a key of the used-parameter table -/
+theorem C08_every_step_staged (spec : Spec) (ord : List Str → List Str) (sf : SS)
+    (h : stageSS spec ord = .ok sf) (hsrc : ∀ st, st ∈ spec.steps → st.name ≠ SOURCE) :
+    ∀ st, st ∈ spec.steps → sf.used.any (·.1 == st.name) = true :=
+  stageSS_all_staged spec ord sf h hsrc
+
+/-- **no step and no combination is dropped**: for every step of the specification the finished
+graph holds its instance (no parameter used) or one instance per row of the parameter table
+(`C08_every_step_staged` and `C08_every_combination_instantiated` together) -/
+theorem C08_no_step_dropped (spec : Spec) (hc : NoClash spec)
+    (hsrc : ∀ st, st ∈ spec.steps → st.name ≠ SOURCE) (ord : List Str → List Str) (sf : SS)
+    (h : stageSS spec ord = .ok sf) (st : Step) (hst : st ∈ spec.steps) :
+    if (getAssoc sf.used st.name).isEmpty then ∃ i, i ∈ sf.g.insts ∧ i.name = st.name
+    else ∀ row, row < nRows spec.params →
+      ∃ i, i ∈ sf.g.insts ∧ i.name = instName st.name (getAssoc sf.used st.name) (combo spec.params row) :=
+  (C08_every_combination_instantiated spec hc ord sf h st.name
+    (C08_every_step_staged spec ord sf h hsrc st hst) (hsrc st hst)).2.2
+
+example : ∀ st, st ∈ demoSpec.steps → st.name ≠ SOURCE := by decide +kernel
 
 end MaestroVerif.C08
